@@ -41,6 +41,27 @@ class VDateTime(_dt.datetime):
 shim = types.SimpleNamespace(**{k: getattr(_dt, k) for k in dir(_dt) if not k.startswith('__')})
 shim.datetime = VDateTime
 
+
+class TouchDateTime(_dt.datetime):
+    """For kopf._core.actions.application only (the 'touch-dummy' value): "any unique always-changing value".
+    In real life two touches are always some API round-trips apart; with a zero-latency API model two touches can
+    fall on the same virtual microsecond and the second one would be a no-op PATCH (no event, processing stalls).
+    Consecutive reads at one virtual instant therefore differ by one microsecond each."""
+    _last = (None, 0)
+
+    @classmethod
+    def now(cls, tz=None):
+        t = _clock[0]()
+        last_t, n = cls._last
+        n = n + 1 if last_t == t else 0
+        cls._last = (t, n)
+        real = vnow() + _dt.timedelta(microseconds=n)
+        return real.astimezone(tz) if tz is not None else real.replace(tzinfo=None)
+
+
+touch_shim = types.SimpleNamespace(**{k: getattr(_dt, k) for k in dir(_dt) if not k.startswith('__')})
+touch_shim.datetime = TouchDateTime
+
 MODULES = [
     'kopf._core.actions.progression', 'kopf._core.actions.application', 'kopf._core.engines.peering',
     'kopf._cogs.structs.credentials', 'kopf._cogs.clients.events', 'kopf._core.engines.probing',
@@ -55,5 +76,5 @@ def install():
     for name in MODULES:
         mod = importlib.import_module(name)
         assert hasattr(mod, 'datetime'), name
-        mod.datetime = shim
+        mod.datetime = touch_shim if name == 'kopf._core.actions.application' else shim
     _installed = True
